@@ -72,6 +72,7 @@ func (c Call) String() string {
 type CallState struct {
 	Call     Call
 	StartNs  int64
+	StartSeq int // number of events logged before the call started (orders same-instant events)
 	EndNs    int64
 	Returned bool
 	Err      error
@@ -205,6 +206,7 @@ func (s *Sim) handler(filter string) client.MessageHandlerFunc {
 func (s *Sim) Go(c Call) *CallState {
 	cs := &CallState{Call: c, StartNs: s.Now(), done: make(chan struct{})}
 	s.mu.Lock()
+	cs.StartSeq = len(s.Events)
 	s.Calls = append(s.Calls, cs)
 	s.mu.Unlock()
 	s.log(Event{Kind: "CALL", Text: c.String()})
@@ -381,6 +383,20 @@ func (s *Sim) ClientDatagrams() []Event {
 	var out []Event
 	for _, e := range s.Events {
 		if e.Kind == "C>G" {
+			out = append(out, e)
+		}
+	}
+	return out
+}
+
+// ClientDatagramsSince returns the datagrams the client has sent after the first seq
+// events of the log (CallState.StartSeq: after that call started).
+func (s *Sim) ClientDatagramsSince(seq int) []Event {
+	s.mu.Lock()
+	defer s.mu.Unlock()
+	var out []Event
+	for i, e := range s.Events {
+		if i >= seq && e.Kind == "C>G" {
 			out = append(out, e)
 		}
 	}
